@@ -21,7 +21,7 @@ CHECKS = {
          "Error variant for too-large c not pinned."),
  "C05": ("metamorphic relation get_balance = sum(get_utxos over all pages) over generated histories",
          "All c incl. none, malformed and foreign-network addresses, query vs update variants; error classes must agree.",
-         "No model; paused-ingestion moments are covered through C08's snapshot (same endpoints)."),
+         "No model needed; 40% of the histories ingest stabilising blocks in slices and check the relation at every pause."),
  "C06": ("stateful page-walk generation interleaved with state changes + mutated page tokens, against the model ledger at the first response's tip",
          "One further page after every following operation (blocks, forks, stabilisation, upgrades); concatenation must equal the first tip's snapshot or end in an explicit error with the tip really gone; mutated tokens must give an error or a consistent sub-sequence, never a trap. A libFuzzer target (fuzz/page_blob) covers raw blobs in the thorough tier.",
          "The hook verif_get_utxos_with_limit calls the endpoint's internal function with a smaller page size."),
